@@ -247,7 +247,8 @@ def case_loglik_branch(rng):
     mats = C.coq_list(range(len(out["rates"])), lambda k: C.coq_list(range(2 * n - 1), lambda node: mat(k, node)))
     tip = {"partials_amb": "(TipPartials true)", "partials_noamb": "(TipPartials false)", "states": "TipStates"}[c["tip"]]
     taxa = C.coq_list(c["taxa_order"], C.natlit)
-    seqs = C.coq_list(c["seq_order"], lambda q: f"({C.natlit(q)}, {C.coq_list([ord(ch) for ch in c['seqs'][q]], C.natlit)})")
+    sel = c01.used_seqs(c)        # the site pattern may select columns of the alignment (`indices`)
+    seqs = C.coq_list(c["seq_order"], lambda q: f"({C.natlit(q)}, {C.coq_list([ord(ch) for ch in sel[q]], C.natlit)})")
     expr = (f"show_d (loglik_nuc NumD {tip} {taxa} {seqs} {trees.coq_tree(c['tree'])} "
             f"{C.coq_list(out['freqs'], Dc)} {mats} {C.coq_list(out['props'], Dc)})")
     return dict(kind="loglik_branch", desc=dict(config=f"{c['subst']['type']}/{c['site']['type']}/{c['tip']}", n=n, branch=j,
